@@ -19,10 +19,12 @@ import (
 // repeated) and with fields changed between the draws where the widget has exported fields
 // (Content/Softwrap of Text and RichText, Value of TextField, Label of Button, Gap/DrawCursor of
 // list.Dynamic and the fields of its items).  At every step the surface returned by the
-// long-lived value is recorded together with the surface a freshly built copy with the same
-// fields returns for the same constraint.  Coq decides, per step, the layout contract on the
-// long-lived value's surface and its equality with the fresh copy's, and compares it with the
-// model's history (model/WidgetsHist.v).
+// long-lived value is recorded.  Coq decides, per step, the clauses of the layout contract on
+// that surface (violations) and compares it with the model's history (model/WidgetsHist.v:
+// Draw of every widget but list.Dynamic is a function of fields and constraint, so state hidden
+// in the Go value is a disagreement; list.Dynamic's scroll index is threaded by the model).
+// The replay file also says which steps differ from a freshly built copy with the same fields
+// (a hint for the reader; list.Dynamic legitimately keeps its scroll position).
 
 type hstep struct {
 	MW, MH int
@@ -141,6 +143,24 @@ func drawObserve(e *env, widget vxfw.Widget, ctx vxfw.DrawContext) (*onode, int,
 	return obs, 0, ""
 }
 
+// exceeds: the surface, or the child surface of a Center/Button, is larger than the maximum
+// (replay hint only)
+func exceeds(w *wspec, o *onode, mw, mh int) bool {
+	if o.W > mw || o.H > mh {
+		return true
+	}
+	if (w.Kind == "center" || w.Kind == "button") && len(o.Kids) == 1 {
+		k := o.Kids[0].T
+		if k.W > mw || k.H > mh {
+			return true
+		}
+		if w.Kind == "center" {
+			return exceeds(w.Child, k, mw, mh)
+		}
+	}
+	return false
+}
+
 func obsTerm(out int, o *onode) string { return hx.Tuple(hx.Z(int64(out)), o.coq()) }
 
 func histCase(s *hx.Stream, w *wspec, steps []hstep, weird bool, tags ...string) {
@@ -173,7 +193,7 @@ func histCase(s *hx.Stream, w *wspec, steps []hstep, weird bool, tags ...string)
 		fresh := deepCopy(w)
 		fe := &env{d: e.d, chars: e.chars}
 		fobs, fout, _ := drawObserve(fe, fresh.build(fe), ctx)
-		terms = append(terms, hx.Tuple(hx.Tuple(w.coq(), hx.Z(int64(st.MW)), hx.Z(int64(st.MH))), obsTerm(out, obs), obsTerm(fout, fobs)))
+		terms = append(terms, hx.Tuple(hx.Tuple(w.coq(), hx.Z(int64(st.MW)), hx.Z(int64(st.MH))), obsTerm(out, obs)))
 		js := map[string]interface{}{"step": i + 1, "max_width": st.MW, "max_height": st.MH, "fields_changed_before": st.Mut,
 			"widget": w.json(), "outcome": out, "surface": obs.json(), "fresh_outcome": fout, "fresh_surface": fobs.json()}
 		if out == 1 {
@@ -181,7 +201,7 @@ func histCase(s *hx.Stream, w *wspec, steps []hstep, weird bool, tags ...string)
 		}
 		jsteps = append(jsteps, js)
 		// hints for the reader of a replay file (the verdict is Coq's)
-		if out == 0 && (obs.W > st.MW || obs.H > st.MH) {
+		if out == 0 && exceeds(w, obs, st.MW, st.MH) {
 			larger = append(larger, i+1)
 		}
 		if out != fout || (out == 0 && obs.coq() != fobs.coq()) {
@@ -220,7 +240,6 @@ func genHistCons(w *wspec, prev [][2]int, limit int) [2]int {
 
 func histStream() *hx.Stream {
 	s := hx.NewStream("hist", "model.Surface model.Widgets model.WidgetsHist", "hist_case", "c14_hist_mismatches", "c14_hist_violations")
-	s.Known, s.KnownClass = "c14_hist_known", "list-empty-first-item"
 	s.ShardMax = 40
 	limit := 140000
 	widgets := []*wspec{
